@@ -51,6 +51,34 @@ VO = ["props/C14.vo"] + PC.VO_MODEL
 NPROC = 6
 
 
+import re as _re
+_NAME_SIGN = _re.compile(r"[A-Za-z][+-]")
+
+
+def _name_sign(s):
+    return _NAME_SIGN.search(s) is not None
+
+
+def zone_sign_cases(tier):
+    """<time> <ZONE NAME><sign><n>: the one place where _parse rewrites its token list"""
+    r = C.rng("C14-zonesign")
+    n = 1500 if tier == "quick" else 40000
+    names = ["GMT", "UTC", "Z", "z", "EST", "BRST", "CEST", "AAA", "X", "ABCDE", "gmt", "Utc"]
+    times = ["10:36", "10:36:28", "2003-09-25 10:36:28", "20030925T104941", "Thu Sep 25 10:36:28 2003", "3pm",
+             "10h36m", "Sep 25 2003 10:36"]
+    out = []
+    for _ in range(n):
+        o = PC.gen_opts(r)
+        t = r.choice(times)
+        nm = r.choice(names)
+        sg = r.choice("+-")
+        num = r.choice(["3", "5", "03", "0300", "03:00", "12", "0", "00:30", "99", "1" * 30])
+        sep = r.choice([" ", " ", "", "  "])
+        tail = r.choice(["", "", " (%s)" % r.choice(names), " " + r.choice(names) + sg + "1"])
+        out.append((o, "%s%s%s%s%s%s" % (t, sep, nm, sg, num, tail), "zone-sign-repeat"))
+    return out
+
+
 def load_regressions():
     path = os.path.join(C.VERIF, "corpus", "regressions", CID + ".jsonl")
     out = []
@@ -156,18 +184,33 @@ def main():
         props = C.compile_props(CID)
     PC.install_watchdog()
 
-    cases = load_regressions() + small_scope(tier) + gen_cases(tier)
+    cases = load_regressions() + small_scope(tier) + zone_sign_cases(tier) + gen_cases(tier)
     # ---- implementation: every input, property predicate evaluated directly
     impl = []
     hist = {}
     outcome_hist = {}
     n_pred = 0
     t_impl = time.time()
+    n_repeat = n_repeat_diff = 0
     for (o, s, kind) in cases:
         a = PC.run_impl(o, s)
         impl.append(a)
         hist[kind] = hist.get(kind, 0) + 1
         outcome_hist[a[0]] = outcome_hist.get(a[0], 0) + 1
+        # the IDENTICAL call again, immediately (three more times for the zone-sign stream and for every
+        # text where a letter run is directly followed by + or -): a successful or failed call must not
+        # leave state behind that changes a later identical call
+        reps = 3 if (kind == "zone-sign-repeat" or _name_sign(s)) else 1
+        for _rep in range(reps):
+            n_repeat += 1
+            a2 = PC.run_impl(o, s)
+            if a2 != a:
+                n_repeat_diff += 1
+                verdict.violation({"kind": "repeating the identical call gives a different outcome (state left "
+                                           "behind by an earlier call)",
+                                   "input": {"s": s, "opts": o}, "impl_first": a, "impl_again": a2,
+                                   "repetition": _rep + 2})
+                break
         if not PC.allowed_outcome(a):
             n_pred += 1
             verdict.violation({"kind": "parse() outcome outside {datetime, ParserError, OverflowError}"
@@ -266,6 +309,7 @@ def main():
         "property_predicate_violations": n_pred,
         "model_vs_impl_disagreements": n_diff,
         "call_order_reruns": len(resample), "call_order_differences": n_order,
+        "identical_call_repetitions": n_repeat, "identical_call_differences": n_repeat_diff,
         "bytes_stream_inputs": n_io, "bytes_stream_differences": n_iodiff, "non_text_inputs": n_type,
         "timing_s": {"impl": round(t_impl, 1), "model": round(t_model, 1)},
         "known_finding_examples": {k: {"s_prefix": v["input"]["s"][:40], "len": len(v["input"]["s"]), "impl": v.get("impl")}
@@ -286,8 +330,8 @@ def main():
                       "tz objects are a small datatype; tzname() of user/local zones enters as two oracle bits"],
                      len(verdict.violations))
     print("C14 %s: obligations %d/%d, %d cases (impl %.0fs, model %.0fs), predicate violations %d, model-diff %d, "
-          "order-diff %d, io-diff %d, %.1fs" % (tier, props["discharged"], props["obligations"], len(cases),
-                                                t_impl, t_model, n_pred, n_diff, n_order, n_iodiff, time.time() - t0))
+          "order-diff %d, repeat-diff %d, io-diff %d, %.1fs" % (tier, props["discharged"], props["obligations"], len(cases),
+                                                t_impl, t_model, n_pred, n_diff, n_order, n_repeat_diff, n_iodiff, time.time() - t0))
     return rc
 
 
